@@ -68,15 +68,24 @@ fn do_call(cas: &Cas<K>, stats: &Option<Arc<OrphanStats<K>>>, t: &[String]) -> S
     r.unwrap_or_else(|_| "err:panic".into())
 }
 
+// obstacles placed where no blob was stored: not part of the CAS listing
+static HIDDEN: Mutex<Vec<String>> = Mutex::new(Vec::new());
 fn cas_listing(root: &Path) -> String {
+    // entries two levels below cas/ are blobs, whatever they are (an `undeletable` obstacle is a
+    // directory sitting at a blob's path: it is listed under the blob's name)
     let mut v = vec![];
-    fn walk(d: &Path, pre: &str, v: &mut Vec<String>) {
-        if let Ok(rd) = std::fs::read_dir(d) { for e in rd.flatten() {
-            let n = e.file_name().to_str().unwrap().to_string();
-            if e.file_type().unwrap().is_dir() { walk(&e.path(), &format!("{pre}{n}"), v); } else { v.push(format!("{pre}{n}")); }
-        } }
+    let rd = |d: &Path| -> Vec<(String, std::path::PathBuf, bool)> {
+        std::fs::read_dir(d).map(|r| r.flatten().map(|e| (e.file_name().to_str().unwrap().to_string(), e.path(), e.file_type().map(|t| t.is_dir()).unwrap_or(false))).collect()).unwrap_or_default()
+    };
+    for (a, pa, da) in rd(&root.join("cas")) {
+        if !da { v.push(a); continue; }
+        for (b, pb, db) in rd(&pa) {
+            if !db { v.push(format!("{a}{b}")); continue; }
+            for (c, _, _) in rd(&pb) { v.push(format!("{a}{b}{c}")); }
+        }
     }
-    walk(&root.join("cas"), "", &mut v);
+    let hidden = HIDDEN.lock().unwrap();
+    v.retain(|x| !hidden.contains(x));
     v.sort();
     v.join(",")
 }
@@ -140,6 +149,7 @@ fn run_one(case: &CCase, sched_lines: &[String], free_seed: Option<u64>) -> Vec<
     let (cas, stats) = match Cas::<K>::open_with_recover(&root, conf) { Ok(x) => x, Err(e) => { out.push(format!("X open failed {e:?}")); return out; } };
     let stats = stats.map(|mut s| { s.orphaned_blobs.sort(); Arc::new(s) });
     for c in &setup { do_call(&cas, &stats, c); }
+    HIDDEN.lock().unwrap().clear();
     // injected obstacles (model-free cases only): `undeletable <content>` turns that content's blob
     // into a non-empty directory, so that its later deletion fails; `blockckpt` puts a directory
     // where checkpoints create their temporary snapshot file, so that every checkpoint fails
@@ -149,7 +159,7 @@ fn run_one(case: &CCase, sched_lines: &[String], free_seed: Option<u64>) -> Vec<
             let data = parse_chunk(t[1]);
             let hx = hex(blake3::hash(&data).as_bytes());
             let p = root.join("cas").join(&hx[0..2]).join(&hx[2..4]).join(&hx[4..]);
-            let _ = std::fs::remove_file(&p);
+            if std::fs::remove_file(&p).is_err() { HIDDEN.lock().unwrap().push(hx.clone()); }
             std::fs::create_dir_all(&p).unwrap();
             std::fs::write(p.join("f"), b"z").unwrap();
         }
